@@ -90,6 +90,18 @@ impl<'a, 'b> PwVisitor for V<'a, 'b> {
                 fail!("evaluate_v over the same arguments gives different results depending on the input iterator: as {name} {:?}, pulled one at a time {:?}; ends {:?}, arguments {:?}", v, out, ends_b, xs);
             }
         }
+        // the RESULT iterator consumed through skip / step_by / nth must yield the same values
+        if xs.len() >= 2 {
+            let sk: Vec<f64> = lib!(pw.evaluate_v(xs.to_vec()).skip(1).collect());
+            let st: Vec<f64> = lib!(pw.evaluate_v(xs.to_vec()).step_by(2).collect());
+            let nl: Option<f64> = lib!(pw.evaluate_v(xs.to_vec()).nth(xs.len() - 1));
+            let sk_want: Vec<f64> = out.iter().skip(1).cloned().collect();
+            let st_want: Vec<f64> = out.iter().step_by(2).cloned().collect();
+            let same = |a: &[f64], b: &[f64]| a.len() == b.len() && a.iter().zip(b).all(|(x, y)| same_bits(*x, *y));
+            if !same(&sk, &sk_want) || !same(&st, &st_want) || !nl.map_or(false, |v| same_bits(v, out[out.len() - 1])) {
+                fail!("evaluate_v consumed through skip(1) / step_by(2) / nth(last) gives {:?} / {:?} / {:?} but pulled one at a time {:?}; ends {:?}, arguments {:?}", sk, st, nl, out, ends_b, xs);
+            }
+        }
         // values
         let mut m = f64::NEG_INFINITY;
         for (i, &x) in xs.iter().enumerate() {
